@@ -194,7 +194,7 @@ pub fn run(e: &'static Engine) {
         }));
     }
     e.par(jobs);
-    let total: u32 = e.tier.pick(1200, 30000);
+    let total: u32 = e.tier.pick(4800, 60000);
     let shards = e.tier.pick(16u32, 64);
     let mut jobs: Vec<Job> = Vec::new();
     for _ in 0..shards {
